@@ -237,7 +237,16 @@ func runC20(c *ctx, r *Report) error {
 			}
 			files = append(files, f)
 			for _, sh := range shells[2:] {
-				files = append(files, &c20File{defShell: sh, jobs: []c20Job{{steps: []c20Step{{directive: "ok", sleepMs: 1, script: "echo wf " + sh}}}}})
+				// workflow default + a job whose defaults.run has no shell (the workflow's shell still applies) + a job with its own
+				// shell + a job without defaults after it (what the rule remembers about the previous job must not leak)
+				files = append(files, &c20File{defShell: sh, jobs: []c20Job{
+					{steps: []c20Step{{directive: "ok", sleepMs: 1, script: "echo wf " + sh}}},
+					{defWD: true, steps: []c20Step{{directive: "ok", sleepMs: 1, script: "echo wf-wd " + sh}}},
+					{defShell: "bash", steps: []c20Step{{directive: "ok", sleepMs: 1, script: "echo wf-job-bash " + sh}}},
+					{steps: []c20Step{{directive: "ok", sleepMs: 1, script: "echo wf-after " + sh}}},
+					{defShell: "python", defWD: true, steps: []c20Step{{directive: "ok", sleepMs: 1, script: "x = 1 # " + sh}}},
+					{defWD: true, steps: []c20Step{{directive: "ok", sleepMs: 1, script: "echo wf-wd-after-python " + sh}}},
+				}})
 			}
 		}
 		for fi := 0; fi < nFiles; fi++ {
